@@ -22,7 +22,7 @@ ASSUMPTIONS = [
     "the assembler is driven through the same keyword interface the CLI uses (meta_version as the string the CLI passes)",
 ]
 BUDGET = {
-    "quick": {"examples": 300, "workers": 8, "time_cap": 70},
+    "quick": {"examples": 350, "workers": 8, "time_cap": 70},
     "thorough": {"examples": 10000, "workers": 14, "time_cap": 900},
 }
 
